@@ -291,6 +291,8 @@ class CatalogMachine(Machine):
         st.actors = [_Actor(cat, list(range(st.n)), False, {})]
         st.nidx = 0
         st.extra_counter = 0
+        st.old_names = []
+        st.pending = None
         if self.variant == 'source':
             st.keys = [int(x) for x in st.fresh.labels]
         else:
@@ -324,6 +326,25 @@ class CatalogMachine(Machine):
         # warm-up: reads on the parent so that indexing meets a full cache
         if nops < 4 and rng.chance(cfg['pre_read']):
             return self._gen_read(rng, st, 0, many=True)
+        # follow-ups: replacing an extra property matters for the next fancy
+        # indexing of the *same* catalog object, and the other way round
+        pend, st.pending = st.pending, None
+        if pend and pend[1] < len(st.actors) and \
+                not st.actors[pend[1]].scalar and len(st.actors) < 7 and \
+                rng.chance(0.6):
+            if pend[0] == 'index':
+                op = self._gen_index(rng, st, pend[1])
+                op['form'] = rng.pick(['list', 'bool', 'array', 'boollist'])
+                n = len(st.actors[pend[1]].rows)
+                if op['form'] in ('list', 'array'):
+                    op['arg'] = [rng.randrange(-n, n)
+                                 for _ in range(rng.randint(1, min(n, 4)))]
+                else:
+                    op['arg'] = [rng.chance(0.5) for _ in range(n)]
+                    op['arg'][rng.randrange(n)] = True
+                return op
+            if st.actors[pend[1]].extras:
+                return self._gen_extra(rng, st, pend[1], replace=True)
         r = rng.random()
         if r < 0.40:
             return self._gen_read(rng, st, k)
@@ -370,8 +391,8 @@ class CatalogMachine(Machine):
         a = st.actors[k]
         n = len(a.rows)
         form = rng.pick(['int', 'int', 'slice', 'list', 'bool', 'key',
-                         'keys', 'boollist', 'array', 'npint'])
-        if form in ('int', 'npint'):
+                         'keys', 'boollist', 'array', 'npint', 'arr0d'])
+        if form in ('int', 'npint', 'arr0d'):
             arg = rng.randrange(-n, n)
         elif form == 'array':
             m = rng.randint(1, min(n, 4))
@@ -406,30 +427,51 @@ class CatalogMachine(Machine):
             arg = [st.keys[rng.pick(a.rows)] for _ in range(m)]
         return {'op': 'index', 'actor': k, 'form': form, 'arg': arg}
 
-    def _gen_extra(self, rng, st, k):
+    def _gen_extra(self, rng, st, k, replace=False):
         a = st.actors[k]
         names = list(a.extras)
         r = rng.random()
+        if replace:
+            # same name, same kind of value, new values
+            name = rng.pick(names)
+            n = len(a.rows)
+            old = a.extras[name]
+            vals = [round(rng.uniform(-5, 5), 3) for _ in range(n)]
+            valkind = 'array'
+            if isinstance(old, list):
+                valkind = 'strs' if isinstance(old[0], str) else 'list'
+            if valkind == 'strs':
+                vals = [f's{v}' for v in vals]
+            return {'op': 'add_extra', 'actor': k, 'name': name,
+                    'values': vals, 'kind': 'duplicate', 'valkind': valkind,
+                    'overwrite': True}
         if r < 0.5 or not names:
             st.extra_counter += 1
             name = f'xp{st.extra_counter}'
             kind = 'ok'
+            old = [x for x in st.old_names
+                   if x not in names]
+            if old and rng.chance(0.35):
+                name = rng.pick(old)     # a name that was in use before
             r2 = rng.random()
             if r2 < 0.08:
                 name = rng.pick(['area', 'label', '_data', 'segment_flux'])
                 kind = 'builtin'
-            elif r2 < 0.16 and names:
+            elif r2 < 0.26 and names:
                 name = rng.pick(names)
                 kind = 'duplicate'
-            elif r2 < 0.24:
+            elif r2 < 0.33:
                 kind = 'wronglen'
             n = 1 if a.scalar else len(a.rows)
             vals = [round(rng.uniform(-5, 5), 3) for _ in range(n)]
             if kind == 'wronglen':
                 vals = vals + [1.0, 2.0]
+            valkind = rng.pick(['array', 'array', 'list', 'strs'])
+            if valkind == 'strs':
+                vals = [f's{v}' for v in vals]
             return {'op': 'add_extra', 'actor': k, 'name': name,
-                    'values': vals, 'kind': kind,
-                    'overwrite': kind == 'duplicate' and rng.chance(0.5)}
+                    'values': vals, 'kind': kind, 'valkind': valkind,
+                    'overwrite': kind == 'duplicate' and rng.chance(0.7)}
         if r < 0.75:
             st.extra_counter += 1
             return {'op': 'rename_extra', 'actor': k, 'name': rng.pick(names),
@@ -567,12 +609,15 @@ class CatalogMachine(Machine):
                                 'indexing a scalar catalog did not raise')
             return
         pos = None
-        if form in ('int', 'npint'):
+        if form in ('int', 'npint', 'arr0d'):
             if not (-n <= arg < n):
                 raise Inapplicable('index out of range')
             pos = [range(n)[arg]]
             scalar = True
-            idx = np.int64(arg) if form == 'npint' else arg
+            # an integer carried by a numpy scalar or by a 0-d array
+            # (np.flatnonzero(...).squeeze()) is the same index
+            idx = {'npint': np.int64(arg), 'arr0d': np.array(arg),
+                   'int': arg}[form]
             out = call(lambda: cat[idx])
         elif form == 'array':
             if any(not (-n <= i < n) for i in arg):
@@ -648,6 +693,8 @@ class CatalogMachine(Machine):
             st.stats.probe('index_with_ge10_cached_properties')
         if form in ('list', 'bool', 'boollist', 'array'):
             st.stats.probe('fancy_index')
+            if a.extras:
+                st.pending = ('replace', st.actors.index(a))
         # the child must present its extras right away
         if self.variant == 'source':
             self._check_family_extras(st, op)
@@ -656,6 +703,10 @@ class CatalogMachine(Machine):
     def _select_extras(a, pos, scalar):
         out = {}
         for name, vals in a.extras.items():
+            if isinstance(vals, list):
+                out[name] = (vals[pos[0]] if scalar
+                             else [vals[i] for i in pos])
+                continue
             v = vals if hasattr(vals, 'unit') else np.asarray(vals)
             if np.ndim(v) == 0:
                 v = v.reshape(1) if hasattr(v, 'reshape') else \
@@ -668,10 +719,17 @@ class CatalogMachine(Machine):
         name, vals, kind = op['name'], op['values'], op['kind']
         overwrite = bool(op.get('overwrite'))
         n = 1 if a.scalar else len(a.rows)
-        value = np.array(vals, dtype=float)
+        valkind = op.get('valkind', 'array')
+        if valkind == 'array':
+            value = np.array(vals, dtype=float)
+        else:
+            # a plain Python list (of floats or of strings): the catalog
+            # keeps it as a list and indexes it through another path
+            value = list(vals)
+            st.stats.probe('extra_list_valued')
         wrong = len(vals) != n
         if a.scalar and not wrong:
-            value = float(vals[0])
+            value = vals[0] if valkind == 'strs' else float(vals[0])
         dup = name in a.extras
         builtin = (name in st.props or name.startswith('_')
                    or hasattr(type(a.cat), name)
@@ -689,7 +747,14 @@ class CatalogMachine(Machine):
             return
         if isinstance(out, Raised):
             raise Violation('raises', 'add_extra_property', repr(out))
-        a.extras[name] = value
+        if dup:
+            st.stats.probe('extra_overwritten')
+        if (dup or name in st.old_names) and not a.scalar:
+            st.pending = ('index', st.actors.index(a))
+        if name in st.old_names:
+            st.stats.probe('extra_name_reused')
+        a.extras[name] = value if valkind == 'array' or a.scalar \
+            else list(value)
         st.stats.probe('extra_added')
 
     def _rename_extra(self, st, a, op):
@@ -701,6 +766,7 @@ class CatalogMachine(Machine):
             raise Violation('raises', 'rename_extra_property', repr(out))
         items = [(new if k == name else k, v) for k, v in a.extras.items()]
         a.extras = dict(items)
+        st.old_names.append(name)
 
     def _remove_extra(self, st, a, op):
         names = op['names']
@@ -721,6 +787,7 @@ class CatalogMachine(Machine):
             raise Violation('raises', 'remove_extra_properties', repr(out))
         for x in names:
             a.extras.pop(x)
+            st.old_names.append(x)
 
     def _phot(self, st, a, op):
         method, arg, name = op['method'], op['arg'], op['name']
